@@ -221,6 +221,8 @@ func propC04(o *out, r *rng, thorough bool) {
 		"SELECT -$p FROM m", "SELECT - - 1 FROM m", "SELECT -/re/ FROM m", "SELECT -* FROM m", "SELECT -(1) FROM m", "SELECT -f(x) FROM m", "SELECT -\"q\" FROM m", "SELECT -1s FROM m",
 		"SELECT -9223372036854775808 FROM m", "SELECT -9223372036854775809 FROM m", "SELECT -18446744073709551615 FROM m", "SELECT +9223372036854775808 FROM m", "SELECT -1.5 FROM m",
 		"SELECT x =~ 1 FROM m", "SELECT v FROM m WHERE x =~ y", "SELECT v FROM m WHERE x !~", "SELECT v FROM m WHERE x =~ $p", "SELECT v FROM m WHERE =~ /a/", "SELECT * FROM", "SELECT", "",
+		"SELECT v FROM m LIMIT 9223372036854775808", "SELECT v FROM m LIMIT 99999999999999999999 OFFSET 1", "SELECT v FROM m SLIMIT 1 SOFFSET 18446744073709551616", "SHOW MEASUREMENTS LIMIT 9223372036854775808",
+		"SELECT v FROM m LIMIT 9223372036854775807", "SELECT v FROM m LIMIT 00000000000000000000001",
 		";", ";;;", " ", "\x00", "SELECT v FROM m GROUP BY time()", "SELECT top() FROM m", "SELECT v FROM m fill()", "SELECT v FROM m tz()", "SELECT v FROM m tz(1)", "SELECT v FROM a.b.c.d",
 		"SELECT v FROM m LIMIT -1", "SELECT v FROM m LIMIT 99999999999999999999", "SELECT 1e5 FROM m", "SELECT 99999999999999999999 FROM m", "SELECT 9999999999999999999s FROM m",
 		"SELECT v FROM m WHERE time > 1.5.5", "CREATE CONTINUOUS QUERY q ON d BEGIN SELECT count(v) INTO t FROM m GROUP BY time() END",
